@@ -357,3 +357,134 @@ pub fn judge(cfg: &Cfg, log: &[Rec]) -> Report {
     rep.nontrivial = multi && any_fail;
     rep
 }
+
+// ---------------------------------------------------------------------------------------
+// Engine "stress-loaded-executor": the real clock and an executor that has other work to do.
+//
+// Under the paused clock a spawned task runs at the virtual instant at which it was spawned, so
+// "spawned" and "started" cannot be told apart there. Here the hedge layer runs on a real
+// current-thread runtime on which (a) another task that is queued ahead spends a few milliseconds
+// in one poll, or (b) hundreds of hedged calls are made at once, so that a spawned attempt reaches
+// the backend noticeably later than it was spawned. The backend records the real instant of every
+// `call()`. Rule (time-independent in the sense that load can only make it *easier* to satisfy):
+// attempt k+1 of a request reaches the backend no earlier than the configured delay after attempt
+// k reached it. tokio timers never fire early and a current-thread runtime arms the next delay only
+// after the poll in which the previous attempt called the backend has returned, so a correct layer
+// cannot be caught by this rule however loaded the machine is.
+#[derive(Clone)]
+struct Stamping {
+    starts: Arc<std::sync::Mutex<HashMap<u64, Vec<std::time::Instant>>>>,
+    lat: Duration,
+}
+
+impl tower::Service<u64> for Stamping {
+    type Response = u64;
+    type Error = String;
+    type Future = std::pin::Pin<Box<dyn std::future::Future<Output = Result<u64, String>> + Send>>;
+    fn poll_ready(&mut self, _cx: &mut std::task::Context<'_>) -> std::task::Poll<Result<(), String>> {
+        std::task::Poll::Ready(Ok(()))
+    }
+    fn call(&mut self, req: u64) -> Self::Future {
+        self.starts.lock().unwrap_or_else(|e| e.into_inner()).entry(req).or_default().push(std::time::Instant::now());
+        let lat = self.lat;
+        Box::pin(async move {
+            tokio::time::sleep(lat).await;
+            Ok(req)
+        })
+    }
+}
+
+pub fn loaded_executor(sseed: u64) -> Report {
+    use tower::{Service, ServiceExt};
+    let mut rng = Prng::new(sseed);
+    let mut rep = Report::default();
+    let d_ms = *rng.pick(&[20u64, 40]);
+    let max = rng.range(2, 3) as usize;
+    let burst = rng.chance(0.3);
+    let hog_ms = *rng.pick(&[4u64, 10, 15]);
+    let n_calls = if burst { *rng.pick(&[300u64, 800]) } else { rng.range(1, 3) };
+    let table = rng.chance(0.3);
+    let rt = match tokio::runtime::Builder::new_current_thread().enable_time().build() {
+        Ok(rt) => rt,
+        Err(e) => {
+            rep.inconclusive = Some(format!("cannot build a runtime: {e}"));
+            return rep;
+        }
+    };
+    let starts: Arc<std::sync::Mutex<HashMap<u64, Vec<std::time::Instant>>>> = Arc::new(std::sync::Mutex::new(HashMap::new()));
+    let inner = Stamping { starts: starts.clone(), lat: Duration::from_millis(d_ms * (max as u64 + 1)) };
+    let b = HedgeLayer::builder().max_hedged_attempts(max);
+    let d = Duration::from_millis(d_ms);
+    let layer = if table { b.delay_fn(move |_a| d).build() } else { b.delay(d).build() };
+    let svc = layer.layer(inner);
+    let t0 = std::time::Instant::now();
+    let finished = rt.block_on(async move {
+        let mut hs = vec![];
+        for i in 0..n_calls {
+            if !burst {
+                // a task that is queued ahead of whatever the next call spawns and does not yield for a while
+                tokio::spawn(async move {
+                    std::thread::sleep(Duration::from_millis(hog_ms));
+                });
+            }
+            let mut s = svc.clone();
+            let fut = async move {
+                match s.ready().await {
+                    Ok(s) => s.call(i + 1).await.is_ok(),
+                    Err(_) => false,
+                }
+            };
+            if burst {
+                hs.push(fut);
+            } else {
+                // sequential: one call at a time, each with its own hog ahead of the primary
+                if !fut.await {
+                    return false;
+                }
+            }
+        }
+        if burst {
+            futures::future::join_all(hs).await.into_iter().all(|ok| ok)
+        } else {
+            true
+        }
+    });
+    drop(rt);
+    let took = t0.elapsed();
+    if !finished {
+        rep.violate("C12:loaded:call-failed", format!("a hedged call over an always-succeeding backend did not resolve with its response (delay {d_ms} ms, max attempts {max})"));
+    }
+    let st = starts.lock().unwrap_or_else(|e| e.into_inner());
+    let mut pairs = 0u64;
+    let mut min_gap = u128::MAX;
+    for (req, v) in st.iter() {
+        if v.len() > max {
+            rep.violate("C12:loaded:too-many-attempts", format!("request {req}: {} inner calls with max_hedged_attempts {max}", v.len()));
+        }
+        for k in 1..v.len() {
+            pairs += 1;
+            let gap = v[k].saturating_duration_since(v[k - 1]);
+            min_gap = min_gap.min(gap.as_micros());
+            if gap < d && rep.violations.len() < 3 {
+                rep.violate(
+                    if k == 1 { "C12:loaded:first-hedge-started-too-early" } else { "C12:loaded:hedge-started-too-early" },
+                    format!(
+                        "request {req}: attempt {k} reached the backend {} us after attempt {} did, configured delay {} us ({}; real clock, current-thread runtime)",
+                        gap.as_micros(), k - 1, d.as_micros(),
+                        if burst { format!("{n_calls} hedged calls made at once") } else { format!("a task queued ahead of the attempt spent {hog_ms} ms in one poll") }
+                    ),
+                );
+            }
+        }
+    }
+    rep.count("attempt_pairs_timed", pairs);
+    rep.count("hedged_calls", st.len() as u64);
+    if min_gap != u128::MAX {
+        rep.max("smallest_gap_over_delay_permille", (min_gap * 1000 / d.as_micros().max(1)) as u64);
+    }
+    rep.bucket(format!("{} d={d_ms}ms max={max}{}", if burst { "burst" } else { "hog" }, if table { " delay_fn" } else { "" }));
+    rep.nontrivial = pairs > 0;
+    rep.sig = crate::prng::mix(sseed, pairs);
+    rep.case = json!({"engine": "stress-loaded-executor", "delay_ms": d_ms, "max": max, "burst": burst, "hog_ms": hog_ms, "calls": n_calls, "wall_ms": took.as_millis() as u64});
+    rep
+}
